@@ -79,6 +79,12 @@ def calcWith (u : TruncUnit) (first : Nat) (ivs : List Nat) (s : Stmt) : Stmt :=
 /-- the code as it is. -/
 def calcPlan (first : Nat) (ivs : List Nat) (s : Stmt) : Stmt := calcWith .storage first ivs s
 
+/-- `IntermediateMetricContext.MakePlan`'s use of it: `guarded = false` is the code (always plans
+again); `guarded = true` is the repaired shape (plans only a statement that carries no storage
+interval yet). -/
+def intermediatePlan (guarded : Bool) (first : Nat) (ivs : List Nat) (s : Stmt) : Stmt :=
+  if guarded && s.storage > 0 then s else calcPlan first ivs s
+
 /-- what a leaf asked directly by the root sees / what a leaf behind an intermediate sees. -/
 def leafDirect (first : Nat) (ivs : List Nat) (s : Stmt) : Stmt := calcPlan first ivs s
 def leafViaIntermediate (first : Nat) (ivs : List Nat) (s : Stmt) : Stmt := calcPlan first ivs (calcPlan first ivs s)
